@@ -23,6 +23,8 @@ import (
 	"context"
 	"encoding/json"
 	"fmt"
+	"os"
+	"path/filepath"
 	"reflect"
 	"sort"
 	"strconv"
@@ -200,6 +202,10 @@ var templates = []func(u string) string{
 		// values derived from a literal are the run's own: writing into them must not reach the literal
 		return "bs" + u + " = toByteSlice(\"qdraft\")\nbs" + u + "[0] = toByteSlice(\"X\")[0]\nrec(toString(bs" + u + "))\nrec(\"qdraft\")\nrs" + u + " = toRuneSlice(\"rdraft\")\nrs" + u + "[0] = toRuneSlice(\"Y\")[0]\nrec(toString(rs" + u + "))\nrec(\"rdraft\")\n" +
 			"rn" + u + " = import(\"math/rand\")\nfunc() {\nx = rn" + u + ".Intn(10)\nrec(x >= 0 && x < 10)\ny = rn" + u + ".Float64()\nrec(y < 1)\n}()"
+	},
+	func(u string) string {
+		// a file loaded by several environments at once is loaded by each of them
+		return "rec(load(libpath14))\nrec(libf14(base))\nrec(libv14)"
 	},
 	func(u string) string {
 		// the nil a function returns after it caught an error is an ordinary value of this run
@@ -418,6 +424,21 @@ func dumpTree(n interface{}) string {
 
 var envCounter atomic.Int64
 
+// libFile14 is a script file written once per process (inside the worker's scratch directory): every
+// environment that loads it gets its own definitions.
+var libFile14 = func() string {
+	dir, err := filepath.Abs(fmt.Sprintf("c14lib-%d", os.Getpid()))
+	if err == nil {
+		err = os.MkdirAll(dir, 0o755)
+	}
+	if err != nil {
+		return "/nonexistent-c14"
+	}
+	p := filepath.Join(dir, "lib.ank")
+	os.WriteFile(p, []byte("libv14 = 0\nfor i = 0; i < 20; i++ { libv14 += i }\nfunc libf14(x) { return [x, libv14] }\nlibf14(1)\n"), 0o644)
+	return p
+}()
+
 type runOut struct {
 	cross   string
 	val     string
@@ -481,6 +502,7 @@ func mkEnv(i int, out *runOut, mu *sync.Mutex) *env.Env {
 	case 2:
 		e.DefineType("float32", "")
 	}
+	e.Define("libpath14", libFile14)
 	// a name the host binds to nil: one more per-environment binding
 	e.Define("hnil", nil)
 	if i%2 == 0 {
